@@ -11,9 +11,11 @@ import OpusModel.DelayChannels
     I delay encroute <ch> <streams> <coupled> <map>    O s<stride>o<offset>c<channel> … (copy_channel_in calls) exact
     I mdct fwd <shift> <in>                            O <clt_mdct_forward_c output>            relative 1e-4
     I mdct bwd <shift> <coef> <outbuf>                 O <clt_mdct_backward_c output buffer>    relative 1e-4
-  For `mdct fwd` the model's fold → DFT → post-rotation result is additionally compared with the textbook MDCT
-  (`celtForwardDirect`, the definition the TDAC theorem is about) at 1e-9 when the argument `direct` is given
-  (all shifts) or for shifts ≥ 1 by default.
+    I mdct fft <shift> <in re,im,…>                    O <opus_fft_c output re,im,…>            relative 1e-4
+  For `mdct fwd` / `mdct bwd` the model's fold → DFT → rotation result is additionally compared with the textbook MDCT /
+  IMDCT (`celtForwardDirect`, `celtBackwardDirect`: the Float renderings of the theorems `mdct_forward_code` /
+  `mdct_backward_code`) at 1e-9 when the argument `direct` is given (all shifts) or for shifts ≥ 1 by default.
+  `mdct fft`: the butterflies of celt/kiss_fft.c against the DFT the proofs take the FFT to be.
 -/
 open Opus Opus.Delay Opus.Mdct
 
@@ -113,6 +115,7 @@ structure Stats where
   worstFwd : Float := 0.0
   worstBwd : Float := 0.0
   worstDirect : Float := 0.0
+  worstFft : Float := 0.0
   nDirect : Nat := 0
   dist : List (String × Nat) := []
 
@@ -143,6 +146,20 @@ def judge (st : Stats) (direct : Bool) (inp : List String) (impl : String) : Boo
         (e ≤ tol && ed ≤ tolDirect, s!"relerr(code,model)={sci e} relerr(model,direct)={sci ed}", st)
       else (e ≤ tol, s!"relerr(code,model)={sci e}", st)
     | _, _, _ => (false, "bad-op", st)
+  | ["mdct", "fft", sh, xin] =>
+    -- opus_fft_c of the static mode's kfft[shift] (nfft = N/4, scaled by 1/nfft) vs. the naive DFT
+    match sh.toNat?, parseFloats xin, parseFloats impl with
+    | some sh, some x, some y =>
+      let n := Opus.Gen.Window.mdctN / 2 ^ sh / 4
+      if sh > Opus.Gen.Window.mdctMaxShift || x.size != 2 * n || y.size != 2 * n then (false, "bad-op", st) else
+      let re : Vec := (Array.range n).map fun j => at' x (2 * j)
+      let im : Vec := (Array.range n).map fun j => at' x (2 * j + 1)
+      let (fr, fi) := dft n re im
+      let m : Vec := (Array.range (2 * n)).map fun j => (if j % 2 == 0 then at' fr (j / 2) else at' fi (j / 2)) / n.toFloat
+      let e := relErr y m
+      let st := { st with worstFft := if e > st.worstFft || e != e then e else st.worstFft }
+      (e ≤ tol, s!"relerr(kiss_fft,dft)={sci e}", st)
+    | _, _, _ => (false, "bad-op", st)
   | ["mdct", "bwd", sh, xc, xo] =>
     match sh.toNat?, parseFloats xc, parseFloats xo, parseFloats impl with
     | some sh, some c, some o, some y =>
@@ -152,7 +169,12 @@ def judge (st : Stats) (direct : Bool) (inp : List String) (impl : String) : Boo
       let m := backward N ov window120 c o
       let e := relErr y m
       let st := { st with worstBwd := if e > st.worstBwd || e != e then e else st.worstBwd }
-      (e ≤ tol, s!"relerr(code,model)={sci e}", st)
+      if direct || sh ≥ 1 then
+        let d := celtBackwardDirect N ov window120 c o
+        let ed := relErr m d
+        let st := { st with worstDirect := if ed > st.worstDirect || ed != ed then ed else st.worstDirect, nDirect := st.nDirect + 1 }
+        (e ≤ tol && ed ≤ tolDirect, s!"relerr(code,model)={sci e} relerr(model,direct)={sci ed}", st)
+      else (e ≤ tol, s!"relerr(code,model)={sci e}", st)
     | _, _, _, _ => (false, "bad-op", st)
   | _ =>
     match delayAnswer inp with
@@ -190,7 +212,7 @@ def main (args : List String) : IO UInt32 := do
   let stdin ← IO.getStdin
   let st ← loop stdin (args.contains "direct") {} none
   if st.dist.any (fun kn => kn.1.startsWith "mdct") then
-    IO.println s!"# mdct worst relative error: forward code-vs-model {sci st.worstFwd}, backward code-vs-model {sci st.worstBwd}, fold/DFT model vs textbook MDCT {sci st.worstDirect} ({st.nDirect} vectors); tolerances {sci tol} / {sci tolDirect}"
+    IO.println s!"# mdct worst relative error: forward code-vs-model {sci st.worstFwd}, backward code-vs-model {sci st.worstBwd}, fold/DFT model vs textbook MDCT/IMDCT {sci st.worstDirect} ({st.nDirect} vectors), opus_fft_c vs naive DFT {sci st.worstFft}; tolerances {sci tol} / {sci tolDirect}"
   for (k, n) in st.dist do
     IO.println s!"DIST {k} {n}"
   IO.println s!"SUMMARY cases={st.cases} mismatches={st.mismatches}"
